@@ -137,6 +137,11 @@ class Server(object):
         """True if the session transport is encrypted, False otherwise."""
         return self.io.encrypted
 
+    def _flush_send(self):
+        # A peer that does not read its replies must not hold the session.
+        with Timeout(self.command_timeout):
+            self.io.flush_send()
+
     def _recv_command(self):
         with Timeout(self.command_timeout):
             return self.io.recv_command()
@@ -159,7 +164,7 @@ class Server(object):
         self._call_custom_handler('HAVE_DATA', reply, data, err)
 
         self.io.send_reply(reply)
-        self.io.flush_send()
+        self._flush_send()
 
         self.have_mailfrom = None
         self.have_rcptto = None
@@ -224,12 +229,15 @@ class Server(object):
                     unhandled_error.send(self.io)
                     raise
                 finally:
-                    self.io.flush_send()
+                    self._flush_send()
 
                 command, arg = self._recv_command()
             except Timeout:
-                timed_out.send(self.io)
-                self.io.flush_send()
+                try:
+                    timed_out.send(self.io)
+                    self._flush_send()
+                except Timeout:
+                    pass
                 raise ConnectionLost()
 
     def _gather_params(self, remaining):
@@ -328,7 +336,8 @@ class Server(object):
 
         reply = Reply('220', '2.7.0 Go ahead')
         self._call_custom_handler('STARTTLS', reply, self.extensions)
-        reply.send(self.io, flush=True)
+        reply.send(self.io)
+        self._flush_send()
         self._check_close_code(reply)
 
         if reply.code == '220':
@@ -466,7 +475,8 @@ class Server(object):
 
         reply = Reply('354', 'Start mail input; end with <CRLF>.<CRLF>')
         self._call_custom_handler('DATA', reply)
-        reply.send(self.io, flush=True)
+        reply.send(self.io)
+        self._flush_send()
         self._check_close_code(reply)
 
         if reply.code == '354':
